@@ -10,8 +10,8 @@ Part A (executed on the x86-64 host, System V):
 Part B (structure; x86-64, x86-32 and AArch64, nothing executed):
   spec/comp/CompilerFront.tla (+MC, +Trace)   node list grammar / life cycle of add_func .. end_func .. finalize, error paths,
                             virtual register table;  harness/compfront.cpp records API calls + node list projections
-  spec/comp/InvokeStatic.tla  the instruction sequence emitted around an invoke on x86-32 / AArch64 moves every argument to
-                            the location ABI.tla prescribes (symbolic execution on spec/machine/Machine.tla)
+  spec/comp/InvokeStatic.tla  the instruction sequence a caller for x86-32 / Win64 / AArch64 executes up to its call puts every
+                            designated argument where ABI.tla prescribes (symbolic execution on spec/machine/Machine.tla)
 """
 import json, os, re, sys, time
 from concurrent.futures import ThreadPoolExecutor
@@ -142,7 +142,7 @@ def part_a(ctx):
     q = ctx.quick
     bdir = ctx.build("plain", "invoke")
     n = 280 if q else 4200
-    scns = x06gen.gen(ctx.seed, n)
+    scns = export_model_scenarios(ctx) + x06gen.gen(ctx.seed, n)
     place(ctx, scns, "rnd")
     tr = run_scenarios(ctx, bdir, scns, "rnd")
     recs, execs, rej = validate_sharded(ctx, tr, "tv", per=35 if q else 70, pool=4 if q else 6)
@@ -166,24 +166,340 @@ def part_a(ctx):
     report_rejections(ctx, rej, "a")
 
 
+# ----------------------------------------------------------------------------------------------------------
+# design level (TLC on the specs themselves)
+# ----------------------------------------------------------------------------------------------------------
+IMC = os.path.join(SPEC, "InvokeMC.tla")
+FMC = os.path.join(SPEC, "CompilerFrontMC.tla")
+INVOKE_BUGS = ["keepVolatile", "stackPacked", "noAl", "retWrongReg", "misalign", "dupArg", "noRestore", "wrongOrder"]
+INVOKE_ACTIONS = ["IArg", "IDef", "IArith", "IStore", "ICtl", "IMove", "IInvoke", "ILeave"]
+FRONT_BUGS = ["addFuncCursorEnd", "poolAfterEnd", "poolKept", "funcKept", "endCursorExit", "invokeStaleOut", "globalNotFlushed"]
+FRONT_ACTIONS = ["INewFunc", "IAddFuncNode", "IAddFunc", "IEndFunc", "IInvoke", "IEmit", "ISetCursor", "INewConst", "INewReg", "INewStack", "IFinalize"]
+
+
+def imc_cfg(ctx, name, scen="MCScenarios", rets="MCRetVals", moves=1, bug="none", cov=False, checks="INVARIANTS ContractHolds Coherent OutCoherent OneHolder"):
+    p = ctx.path(f"imc_{name}.cfg")
+    open(p, "w").write(f"SPECIFICATION Spec\nCONSTANTS\n  Scenarios <- {scen}\n  RetVals <- {rets}\n  MaxMoves = {moves}\n"
+                       f"  Cov = {'TRUE' if cov else 'FALSE'}\n  Bug = \"{bug}\"\n{checks}\n")
+    return p
+
+
+def fmc_cfg(ctx, name, ops=5, nodes=9, bug="none", cov=False, checks="INVARIANT CInv\nPROPERTIES RefinesContract StepProps\nVIEW View"):
+    p = ctx.path(f"fmc_{name}.cfg")
+    open(p, "w").write(f"SPECIFICATION Spec\nCONSTANTS\n  MaxOps = {ops}\n  MaxNodes = {nodes}\n  MaxRegs = 2\n  Bug = \"{bug}\"\n"
+                       f"  Cov = {'TRUE' if cov else 'FALSE'}\n{checks}\n")
+    return p
+
+
+def actions_taken(out):
+    res = {}
+    for m in re.finditer(r'<<"ACT", "(\w+)">>', out):
+        res[m.group(1)] = res.get(m.group(1), 0) + 1
+    return res
+
+
+def design(ctx):
+    q = ctx.quick
+    jobs = []
+    # the contract is implementable: every behaviour of the code-generator model satisfies it
+    jobs.append(("invoke-main", IMC, imc_cfg(ctx, "main", moves=1 if q else 2), 8, "ok"))
+    jobs.append(("front-main", FMC, fmc_cfg(ctx, "main", ops=5 if q else 6, nodes=9 if q else 10), 8, "ok"))
+    # the contract is not vacuous: each seeded slip is rejected
+    for b in INVOKE_BUGS:
+        jobs.append((f"invoke-neg-{b}", IMC, imc_cfg(ctx, f"neg_{b}", bug=b, checks="INVARIANT ContractHolds"), 2, "ContractHolds"))
+    for b in FRONT_BUGS:
+        jobs.append((f"front-neg-{b}", FMC, fmc_cfg(ctx, f"neg_{b}", bug=b), 2, "violation"))
+    # action coverage (TLC's own -coverage runs out of memory on these specs: every action reports itself when Cov = TRUE)
+    jobs.append(("invoke-cov", IMC, imc_cfg(ctx, "cov", scen="MCCov", rets="MCRetOne", cov=True), 1, "cov-invoke"))
+    jobs.append(("front-cov", FMC, fmc_cfg(ctx, "cov", ops=3, nodes=8, cov=True), 1, "cov-front"))
+
+    def one(job):
+        name, mod, cfg, workers, expect = job
+        return job, vlib.run_tlc(ctx, mod, cfg, workers=workers, timeout=2400, tag=name, heap="4g")
+
+    with ThreadPoolExecutor(max_workers=4) as ex:
+        results = list(ex.map(one, jobs))
+    for (name, mod, cfg, workers, expect), r in results:
+        if expect == "ok":
+            vlib.tlc_must_ok(ctx, r, name)
+            ctx.extra[f"design_{name}_states"] = r.distinct
+            ctx.log(f"design {name}: {r.distinct} distinct states, all invariants / refinement properties hold")
+        elif expect in ("ContractHolds", "violation"):
+            if r.kind != "violation" or (expect == "ContractHolds" and r.violated != "ContractHolds"):
+                raise Broken(f"negative control {name} was not rejected (kind={r.kind} violated={r.violated}): the contract would be vacuous\n" + r.out[-800:])
+        else:
+            if r.kind != "ok":
+                raise Broken(f"coverage run {name} failed: {r.out[-1200:]}")
+            taken = actions_taken(r.out)
+            want = INVOKE_ACTIONS if expect == "cov-invoke" else FRONT_ACTIONS
+            missing = [a for a in want if not taken.get(a)]
+            if missing:
+                raise Broken(f"{name}: actions never taken: {missing}")
+            ctx.extra[f"design_{name}_actions"] = taken
+    ctx.log(f"design: {len(INVOKE_BUGS)} + {len(FRONT_BUGS)} negative controls rejected, every action taken")
+
+
+def export_model_scenarios(ctx):
+    r = vlib.run_tlc(ctx, IMC, imc_cfg(ctx, "export", moves=0, rets="MCRetOne", checks="INVARIANT Export"), workers=2, timeout=900, tag="imc_export")
+    if r.kind != "ok":
+        raise Broken("scenario export failed: " + r.out[-1200:])
+    scns = [v[1] for v in jprints(r.out) if v and v[0] == "SCN"]
+    uniq = {s["id"]: s for s in scns}
+    if len(uniq) < 7:
+        raise Broken(f"only {len(uniq)} model scenarios exported")
+    return list(uniq.values())
+
+
+# ----------------------------------------------------------------------------------------------------------
+# Part B: front-end life cycle
+# ----------------------------------------------------------------------------------------------------------
+F_MOD, F_CFG = os.path.join(SPEC, "CompilerFrontTrace.tla"), os.path.join(SPEC, "CompilerFrontTrace.cfg")
+K_STALE = "front:invoke-out-not-null-on-failure"
+K_A64LBL = "front:a64-invoke-label-target"
+
+
+def front_env(ctx):
+    return {"KNOWN_STALE_OUT": "1" if K_STALE in ctx.known else "0", "KNOWN_A64_LABEL": "1" if K_A64LBL in ctx.known else "0"}
+
+
+def front_validate(ctx, trace, tag, per=150, pool=4):
+    recs = vlib.read_ndjson(trace)
+    execs = vlib.split_executions(recs)
+    shards = [execs[i:i + per] for i in range(0, len(execs), per)]
+    env = front_env(ctx)
+    old = {k: os.environ.get(k) for k in env}
+    os.environ.update(env)          # validate_executions passes the process environment on to TLC
+    try:
+        def one(i):
+            p = ctx.path(f"{tag}_shard{i}.ndjson")
+            vlib.write_ndjson(p, [r for e in shards[i] for r in e])
+            return vlib.validate_executions(ctx, F_MOD, F_CFG, p, tag=f"{tag}{i}_", timeout=1500, heap="3g", max_rejects=8)
+        rej = []
+        with ThreadPoolExecutor(max_workers=pool) as ex:
+            for r in ex.map(one, range(len(shards))):
+                rej += r
+    finally:
+        for k, v in old.items():
+            if v is None:
+                os.environ.pop(k, None)
+            else:
+                os.environ[k] = v
+    return recs, execs, rej
+
+
+def front_key(rec):
+    e = rec.get("e")
+    if e == "Invoke" and rec.get("out") == "stale" and rec.get("r") != "Ok":
+        return K_STALE
+    if e == "Finalize" and rec.get("tidy") and rec.get("r") != "Ok" and rec.get("arch") == "a64" and rec.get("lblinv", 0) > 0:
+        return K_A64LBL
+    return f"front:{e}:{'Ok' if rec.get('r', 'Ok') == 'Ok' else 'Err'}"
+
+
+def front_confirm_known(ctx, execs):
+    """A finding listed as known is still reported in every run, after TLC rejected a witness with the allowance switched off."""
+    os.makedirs(FINDINGS_DIR, exist_ok=True)
+    for key, pred, what in (
+        (K_STALE, lambda r: r.get("e") == "Invoke" and r.get("out") == "stale" and r.get("r") != "Ok",
+         "a failed invoke() (bad signature) returns an error but leaves its Out<InvokeNode*> parameter untouched although x86compiler.h / a64compiler.h "
+         "promise \"if anything fails nullptr is stored in out\""),
+        (K_A64LBL, lambda r: r.get("e") == "Finalize" and r.get("tidy") and r.get("r") != "Ok" and r.get("arch") == "a64" and r.get("lblinv", 0) > 0,
+         "a64::Compiler::invoke(out, Label, signature) records `blr <label>`, which no AArch64 assembler accepts: finalize() fails with InvalidInstruction")):
+        if key not in ctx.known:
+            continue
+        wit = [e for e in execs if any(pred(r) for r in e)]
+        if not wit:
+            continue
+        wit.sort(key=len)
+        rp = os.path.join(FINDINGS_DIR, re.sub(r"[^A-Za-z0-9_.-]+", "_", key) + ".ndjson")
+        vlib.write_ndjson(rp, wit[0])
+        r = vlib.run_tlc(ctx, F_MOD, F_CFG, workers=1, timeout=600, env={"TRACE": rp, "KNOWN_STALE_OUT": "0", "KNOWN_A64_LABEL": "0"}, tag="front_confirm", heap="1g")
+        if r.kind == "ok":
+            raise Broken(f"known finding {key}: the witness execution is accepted by the strict contract")
+        ctx.known_finding(key, f"{what}; {len(wit)} executions in this run show it")
+        ctx.extra.setdefault("findings", {})[key] = {"count": len(wit)}
+
+
+def part_b(ctx):
+    q = ctx.quick
+    bdir = ctx.build("asan", "compfront")
+    # (1) call sequences enumerated by TLC from the transcribed algorithm, replayed on the three targets
+    r = vlib.run_tlc(ctx, FMC, fmc_cfg(ctx, "sim", ops=12, nodes=40, checks="INVARIANT Export"), workers=4, timeout=900, tag="fmc_sim",
+                     simulate=(240 if q else 2400) // 4, depth=13, seed=ctx.seed)
+    if r.kind != "ok":
+        raise Broken("behaviour export failed: " + r.out[-1200:])
+    behs = {json.dumps(b) for b in vlib.parse_beh(r.out) if isinstance(b, list) and b}
+    scripts = []
+    for i, b in enumerate(sorted(behs)):
+        scripts.append({"arch": ("x64", "x86", "a64")[i % 3], "ops": json.loads(b)})
+    sp, tr1 = ctx.path("front_scripts.ndjson"), ctx.path("front_trace_scripts.ndjson")
+    vlib.write_ndjson(sp, scripts)
+    vlib.record_trace(ctx, bdir, "compfront", ["script", sp, tr1], tr1, timeout=900)
+    # (2) seeded random call sequences (misuse included) and tidy ones that reach finalize()
+    tr2 = ctx.path("front_trace_random.ndjson")
+    vlib.record_trace(ctx, bdir, "compfront", ["random", tr2, 900 if q else 9000, 36], tr2, timeout=1500, env={"VERIF_SEED": ctx.seed})
+    nev = 0
+    for tag, path in (("fs", tr1), ("fr", tr2)):
+        recs, execs, rej = front_validate(ctx, path, tag, per=150 if q else 500)
+        nev += len(recs)
+        for rec in recs:
+            if rec.get("e") not in ("Reset",):
+                ctx.distinct.add(("front", rec.get("e"), rec.get("r", "-")[:3], rec.get("good"), rec.get("scope"), rec.get("k"), rec.get("out"),
+                                  len(rec.get("p", {}).get("fwd", [])) if "p" in rec else 0))
+        front_confirm_known(ctx, execs)
+        groups = {}
+        for x in rej:
+            bad = x["records"][x["index"]] if x["index"] < len(x["records"]) else {"e": "END"}
+            groups.setdefault(front_key(bad) if not x["inv"] else f"front:invariant:{x['inv']}", []).append((x, bad))
+        os.makedirs(FINDINGS_DIR, exist_ok=True)
+        for k, items in sorted(groups.items()):
+            items.sort(key=lambda it: len(it[0]["records"]))
+            x, bad = items[0]
+            rp = os.path.join(FINDINGS_DIR, re.sub(r"[^A-Za-z0-9_.-]+", "_", k)[:100] + ".ndjson")
+            vlib.write_ndjson(rp, x["records"])
+            calls = " ".join(r_["e"] for r_ in x["records"][1:x["index"] + 1])[-300:]
+            what = f"event {json.dumps({kk: vv for kk, vv in bad.items() if kk != 'p'})[:260]} is not a step of CompilerFront.tla after: {calls}; {len(items)} executions"
+            if k in ctx.known:
+                ctx.known_finding(k, what)
+            else:
+                ctx.violation(f"key={k} {what}", rp)
+        if execs and len(execs[0]) > 3:
+            ctx.add_sample({"front": [{kk: vv for kk, vv in r_.items() if kk != "p"} for r_ in execs[0][1:5]]})
+    ctx.evaluations += nev
+    ctx.extra["front_events"] = nev
+    ctx.extra["front_scripts_from_model"] = len(scripts)
+    ctx.log(f"(B) {nev} front-end API calls on x86-64 / x86-32 / AArch64 compilers validated ({len(scripts)} model-generated call sequences + random)")
+
+
+# ----------------------------------------------------------------------------------------------------------
+# Part B, second half: calls on targets that cannot be executed here, judged on the abstract machine
+# ----------------------------------------------------------------------------------------------------------
+S_MOD, S_CFG = os.path.join(SPEC, "InvokeStatic.tla"), os.path.join(SPEC, "InvokeStatic.cfg")
+
+
+def static_case_text(c):
+    return (f"{c['env']} f/{c['fconv']}({','.join(c['fargs'])}) calls g/{c['cconv']}({','.join(c['cargs'])}) with operands "
+            f"{['imm' if x == 0 else 'arg%d' % x for x in c['map']]} fp={c['fp']}")
+
+
+def static_key(d):
+    # d = [family, what, ...]
+    if d[1] == "arg":
+        return f"static:{d[0]}:arg:{d[2]}:{d[3]}:{d[4]}" + (":hi" if d[5] > 1 else "")
+    if d[1] == "build-refused":
+        return f"static:{d[0]}:build-refused:" + re.sub(r"[^A-Za-z0-9]+", "-", f"{d[2]}-{d[3]}")
+    return "static:" + ":".join(str(x) for x in d)
+
+
+def part_c(ctx):
+    q = ctx.quick
+    bdir = ctx.build("asan", "compfront")
+    cases = x06gen.gen_static(ctx.seed, 700 if q else 9000)
+    cp, op = ctx.path("static_cases.ndjson"), ctx.path("static_obs.ndjson")
+    vlib.write_ndjson(cp, cases)
+    rc, _, err = vlib.run_harness(ctx, bdir, "compfront", ["static", cp, op], timeout=1500)
+    lines = open(op).read().splitlines() if os.path.exists(op) else []
+    if rc != 0 or len(lines) != len(cases):
+        # a crash / sanitizer abort of the real Compiler on a documented use: the case it stopped at is the finding
+        k = len(lines)
+        rp = os.path.join(FINDINGS_DIR, "static_abort.ndjson")
+        os.makedirs(FINDINGS_DIR, exist_ok=True)
+        vlib.write_ndjson(rp, [cases[min(k, len(cases) - 1)]])
+        why = next((x.strip() for x in (err or "").splitlines() if "Sanitizer" in x or "runtime error" in x), (err or "").strip()[-200:])
+        ctx.violation(f"key=static:abort harness stopped at case {k} (rc={rc}): {why}; input: {static_case_text(cases[min(k, len(cases) - 1)])}", rp)
+        return
+    per = 3000
+    bad, deferred, ninst = [], 0, 0
+    for sidx in range((len(lines) + per - 1) // per):
+        part = lines[sidx * per:(sidx + 1) * per]
+        pp = ctx.path(f"static_part{sidx}.ndjson")
+        open(pp, "w").write("\n".join(part) + "\n")
+        r = vlib.run_tlc(ctx, S_MOD, S_CFG, workers=8, timeout=1800, env={"CASES": pp, "MODE": "report"}, tag=f"static{sidx}", heap="6g")
+        if r.kind != "ok":
+            raise Broken(f"InvokeStatic shard {sidx}: kind={r.kind}\n" + "\n".join(r.out.splitlines()[-25:]))
+        ctx.states += r.distinct
+        ctx.transitions += r.generated
+        for v in jprints(r.out):
+            if v and v[0] == "NONCONF":
+                bad.append((sidx * per + v[1] - 1, v[2]))
+            elif v and v[0] == "DEFERRED":
+                deferred += 1
+    for ln in lines:
+        o = json.loads(ln)
+        ninst += o["ninst"]
+        ctx.distinct.add(("static", o["env"], o["fconv"], o["cconv"], tuple(o["fargs"]), tuple(o["cargs"]), tuple(o["map"]), o["fp"]))
+    ctx.traces += len(lines) - deferred
+    ctx.evaluations += ninst
+    ctx.extra["static_cases"] = len(lines)
+    ctx.extra["static_cases_deferred_to_C06a"] = deferred
+    ctx.extra["static_instructions_executed"] = ninst
+    groups = {}
+    for idx, d in bad:
+        groups.setdefault(static_key(d), []).append((idx, d))
+    ctx.log(f"(B/static) {len(lines)} call sequences of the real Compiler for x86-32 / Win64 / AArch64 executed on the abstract machine "
+            f"({ninst} instructions; {deferred} cases left to C06(a)); {len(bad)} rejected in {len(groups)} classes")
+    os.makedirs(FINDINGS_DIR, exist_ok=True)
+    for k, items in sorted(groups.items()):
+        items.sort(key=lambda it: (len(lines[it[0]]), it[0]))
+        idx, d = items[0]
+        rp = os.path.join(FINDINGS_DIR, re.sub(r"[^A-Za-z0-9_.-]+", "_", k)[:100] + ".ndjson")
+        open(rp, "w").write(lines[idx] + "\n")
+        # second, strict run on the minimal input alone: must be a TLC invariant violation
+        r = vlib.run_tlc(ctx, S_MOD, S_CFG, workers=1, timeout=600, env={"CASES": rp, "MODE": "strict"}, tag="static_strict", heap="1g")
+        if r.kind != "violation":
+            raise Broken(f"static finding {k} not confirmed by the strict run on {rp}: {r.kind}")
+        what = f"{' '.join(str(x) for x in d)}; smallest failing input: {static_case_text(json.loads(lines[idx]))}; {len(items)} cases in this run"
+        ctx.extra.setdefault("findings", {})[k] = {"count": len(items), "diag": d}
+        if k in ctx.known:
+            ctx.known_finding(k, what)
+        else:
+            ctx.violation(f"key={k} {what}", rp)
+    o = json.loads(lines[len(lines) // 2])
+    ctx.add_sample({"static": static_case_text(o), "instructions_to_call": [i["op"] for i in o["insts"]][:14]})
+
+
 ASSUMPTIONS = [
-    "Part A runs on the x86-64 System V host only; Win64 / 32-bit / AArch64 calls are not executed (Part B checks their emitted sequences statically)",
+    "Part A runs on the x86-64 System V host only; Win64 / 32-bit / AArch64 calls are not executed",
     "the callee thunks, the entry trampoline (assembly in harness/invoke.cpp) and the translation scenario -> Compiler API calls are trusted; "
     "argument / return locations are taken from spec/func/ABI.tla by TLC, never from the harness",
     "only the low size-of-type bytes of a narrow argument / return value are compared (psABI leaves the rest undefined)",
     "a scenario that uses only documented operand assignments must build (add_func .. finalize, JitRuntime::add all Ok); other scenarios may be refused",
+    "Part B: the harness's projection (node ids in order of first sight, NodeType names, VirtReg accessors) is trusted; the flag `tidy` "
+    "(code is a sequence of closed functions built from documented calls) is the harness's claim; error codes are not compared, only Ok / not Ok",
+    "static leg: x86-32 (cdecl/stdcall/fastcall, Linux and Windows), Win64 and AAPCS64 callers are judged up to the call instruction only "
+    "(return values and callee-cleanup are not); char arguments on x86-32 live in 32-bit virtual registers (8-bit virtual registers are "
+    "documented as not recommended); cases whose FuncDetail locations differ from ABI.tla are left to C06(a)",
+    "InvokeNode::set_arg / FuncNode::set_arg with an index out of range are guarded by assertions only (no error path exists to check); "
+    "add_func() inside an open function is not an error in asmjit and is treated as allowed misuse",
 ]
 
 
 def run(ctx):
-    part_a(ctx)
+    t = {}
+    def timed(name, fn):
+        t0 = time.time()
+        fn(ctx)
+        t[name] = round(time.time() - t0, 1)
+    with ThreadPoolExecutor(max_workers=3) as ex:
+        futs = [ex.submit(timed, "design", design), ex.submit(timed, "part_a", part_a), ex.submit(timed, "part_b", lambda c: (part_b(c), part_c(c)))]
+        errs = []
+        for f in futs:
+            try:
+                f.result()
+            except Exception as e:      # noqa
+                errs.append(e)
+        if errs:
+            raise errs[0]
+    ctx.extra["leg_wall_s"] = t
     ctx.assumptions += ASSUMPTIONS
     vlib.write_evidence(ctx, "model_checking",
-        rule="evaluations = calls observed by the recording callees + completed executions of generated callers, each judged by TLC against "
-             "Invoke.tla; distinct = distinct (signature, target kind, frame options) of callees and callers; traces = executions (one "
-             "scenario each, 1-3 inputs) accepted by TLC",
-        trusted_base=["TLC 1.8.0", "spec/comp/Invoke.tla (contract)", "spec/func/ABI.tla (locations; validated against gcc/clang by C06)",
-                      "harness/invoke.cpp: assembly trampoline / recording thunks / scenario translation"],
+        rule="evaluations = calls observed by the recording callees + completed executions of generated callers (Part A) + front-end API calls "
+             "(Part B), each judged by TLC against Invoke.tla / CompilerFront.tla; distinct = distinct (signature, target kind, frame options) "
+             "of callees and callers + distinct (call, result class, list length) front-end steps; traces = executions accepted by TLC; "
+             "states/transitions = TLC totals over design runs and trace validation",
+        trusted_base=["TLC 1.8.0", "spec/comp/Invoke.tla, spec/comp/CompilerFront.tla (contracts)",
+                      "spec/func/ABI.tla (locations; validated against gcc/clang by C06)",
+                      "harness/invoke.cpp: assembly trampoline / recording thunks / scenario translation", "harness/compfront.cpp projection"],
         exhaustive=False)
 
 
@@ -191,7 +507,13 @@ def replay(ctx, path):
     recs = vlib.read_ndjson(path)
     scn = next((r["s"] for r in recs if r.get("e") == "Scenario"), None)
     if scn is None:
-        raise Broken("replay file holds no Scenario event")
+        # a front-end execution: the recorded calls are judged again (strictly)
+        r = vlib.run_tlc(ctx, F_MOD, F_CFG, workers=1, timeout=600, env={"TRACE": path, "KNOWN_STALE_OUT": "0", "KNOWN_A64_LABEL": "0", "MODE": "report"}, tag="replay_front")
+        if r.kind == "ok":
+            ctx.log("recorded front-end execution is accepted")
+        else:
+            ctx.violation("recorded front-end execution is rejected: " + " ".join(re.findall(r'<<"REJECT".*', r.out))[:300], path)
+        return
     bdir = ctx.build("plain", "invoke")
     place(ctx, [scn], "replay")
     tr = run_scenarios(ctx, bdir, [scn], "replay")
